@@ -199,6 +199,11 @@ fn judge(
             continue;
         }
         let sa = mdscan::scan(ta);
+        // front matter goes with the note (also to its new name)
+        if sb.meta.as_ref().map(|m| m.trim_end().to_string()) != sa.meta.as_ref().map(|m| m.trim_end().to_string()) {
+            v.push(("front-matter-lost".into(), format!("{} -> {}: front matter {:?} -> {:?}", k, k_after, sb.meta, sa.meta)));
+            continue;
+        }
         // content unchanged: same block texts outside link texts
         let mask = |l: &LinkOcc| mdscan::is_internal(&l.dest) && l.kind != LKind::Image;
         let wb: Vec<Vec<String>> = sb.atoms.iter().map(|a| crate::oracle::masked_words(a, sb, &mask)).collect();
